@@ -21,12 +21,14 @@ MC_INV = {
 
 SCOPES = {
     "quick": dict(
-        states=dict(NA=2, G=2, Prio=[1, 2], XG=1),
-        states_limit=12000,
-        stateseq=dict(NA=2, G=2, Prio=[1, 1], XG=1),
-        stateseq_limit=6000,
+        states1=dict(NA=2, G=1, Prio=[1, 2], XG=1),  # every state of the small grid (TLC); replay a seeded sample
+        states1_limit=12000,
+        states=dict(NA=2, G=2, Prio=[1, 2], XG=2, Shards=6, Shard=SEED % 6),  # one seeded shard of the system bounds
+        states_limit=10000,
+        stateseq=dict(NA=2, G=1, Prio=[1, 1], XG=1),
+        stateseq_limit=8000,
         history=dict(NA=2, G=1, Prio=[1, 2], XG=1, MaxAge=0, MaxClock=1, MaxDepth=5, HPref={NONE, -1, 1}, HLo={NONE, 0}, HHi={NONE, 0, 1}),
-        history_limit=24000,
+        history_limit=16000,
         sim=dict(NA=3, G=2, Prio=[1, 2, 3], XG=2, MaxAge=1, MaxClock=3, MaxDepth=9),
         sim_num=3000,
     ),
@@ -43,7 +45,7 @@ SCOPES = {
     ),
 }
 
-BASE = dict(MaxAge=1, MaxClock=0, MaxDepth=0, HPref=set(), HLo=set(), HHi=set(), ExclInside=False)
+BASE = dict(MaxAge=1, MaxClock=0, MaxDepth=0, HPref=set(), HLo=set(), HHi=set(), ExclInside=False, Shards=1, Shard=0)
 
 # source ids per actor index: every naming is increasing in the index (so the (priority, source_id)
 # order of the code equals the spec's rank order also for equal priorities) but hashes differently,
@@ -353,6 +355,8 @@ def run(prop: str, tier: str) -> int:
         "other component groups exist only as always-fresh decoys (the resolver is per group)",
         "the harness reads no private state: only calculate_target_power / get_target_power / get_status / drop_old_proposals",
     ]
+    if "states1" in sc:
+        _stage(rep, prop, "states1", sc["states1"], work, "states", sc.get("states1_limit"))
     _stage(rep, prop, "states", sc["states"], work, "states", sc["states_limit"])
     if "states3" in sc:
         _stage(rep, prop, "states3", sc["states3"], work, "states", None)
